@@ -73,6 +73,12 @@ void push_contract(myth_thread_queue_t q, myth_thread_t th)
                                          "parent-first: the new thread is published only when its record and start context are complete"))
   __CPROVER_assigns(g_pushed_parent, g_pushed_new)
   __CPROVER_ensures(g_child_first ? (g_pushed_parent == 1 && g_pushed_new == __CPROVER_old(g_pushed_new)) : (g_pushed_new == 1 && g_pushed_parent == __CPROVER_old(g_pushed_parent)));
+/* should a caller of the common exit path run the destructor walk itself: that is the walk's business (C11); here it is
+   only kept from pulling the real walk into these jobs */
+int g_c01_fini;
+void tls_fini_c01_contract(myth_tls_tree_t * t, myth_tls_key_allocator_t * ka)
+  __CPROVER_requires(1) __CPROVER_assigns(g_c01_fini) __CPROVER_ensures(g_c01_fini == 1);
+void (*keep_tls_fini_c01)(myth_tls_tree_t *, myth_tls_key_allocator_t *) = myth_tls_tree_fini;
 void cleanup_contract(myth_thread_t this_thread)
   __CPROVER_requires(this_thread == &NEW && g_cleanup_calls == 0)
   __CPROVER_requires(g_fn_calls == 1 && NEW.result == g_fn_ret && "the return value is stored in the record before the thread finishes")
